@@ -270,8 +270,10 @@ def run(ctx):
     gd = prog.func(DB + '.get_delayed_calls_to_start')
     cfg = ctx.cfg(gd)
     ops, base, rets = qshape.query_ops(cfg, gd.node)
-    txt = ' ; '.join(o.text for o in ops if o.always)
-    r3.check('execution_time < time' in txt and 'processing' in txt,
+    alw = [o.call for o in ops if o.always]
+    r3.check(any(U.phas(c, '___.execution_time < time') for c in alw) and
+             any(U.phas(c, '___.filter_by(processing=False)') or
+                 U.phas(c, '___.processing == False') for c in alw),
              ctx.construct(gd, extra='legacy time/processing filters'),
              'legacy poll lacks execution_time < time or processing filter',
              ctx.loc(gd))
@@ -362,18 +364,20 @@ def run(ctx):
     for x in conts:
         g = [norm(t) for (t, pol, _g) in cfg.guards(x)
              if isinstance(t, ast.expr) and pol]
-        if any("filters['key'] != j.key" in t for t in g):
+        gt = [t for (t, pol, _g) in cfg.guards(x)
+              if isinstance(t, ast.expr) and pol]
+        if any(U.phas(t, "filters['key'] != __j.key") for t in gt):
             key_ok = True
-        if any("filters['processing'] is (j.captured_at is None)" in t
-               for t in g):
+        if any(U.phas(t, "filters['processing'] is "
+                      "(__j.captured_at is None)") for t in gt):
             proc_ok = True
     r7.check(ok and key_ok, ctx.construct(hs, extra='key filter'),
              'in-memory jobs with another key are not skipped', ctx.loc(hs))
     r7.check(ok and proc_ok, ctx.construct(hs, extra='processing filter'),
              'in-memory jobs are not filtered on processing <=> captured',
              ctx.loc(hs))
-    r7.check("'neq' if processing else 'eq'" in txt and
-             'get_scheduled_jobs_count(**filters) > 0' in txt,
+    r7.check(U.phas(hs.node, "{('neq' if processing else 'eq'): None}") and
+             U.phas(hs.node, '___.get_scheduled_jobs_count(**filters) > 0'),
              ctx.construct(hs, extra='store filter'),
              'store query does not translate processing into captured_at '
              'neq/eq None', ctx.loc(hs))
